@@ -237,7 +237,13 @@ func zzH_C27_touch_within_paid() {
 	var run func() ([]byte, error)
 	var msize func(*Stack) (uint64, bool)
 	scope := &ScopeContext{Memory: mem, Contract: contract}
-	switch zzChoice(8) {
+	switch zzChoice(9) {
+	case 8:
+		// RETURNDATACOPY reads the previous call's return data: out-of-range requests are an
+		// error (ErrReturnDataOutOfBounds), never a panic, whatever the offsets are
+		evm.returnData = zzNondetBytes(zzBound("IN"))
+		st, _ = zzStackWith(3)
+		msize, run = memoryReturnDataCopy, func() ([]byte, error) { return opReturnDataCopy(&pc, evm, scope) }
 	case 0:
 		st, _ = zzStackWith(1)
 		msize, run = memoryMLoad, func() ([]byte, error) { return opMload(&pc, evm, scope) }
